@@ -4,14 +4,17 @@
 
    World
      sdir            the share directory exists
-     repo            repo.json: [st, seq]  st = "none" (no file) | "empty" (created,
+     repo            repo.json: [st, seq, mt]  st = "none" (no file) | "empty" (created,
                      nothing written yet) | "map"; seq = recorded build-ids in file
-                     order (the recorded size of b is the constant Size(b))
+                     order (the recorded size of b is the constant Size(b)); mt = the
+                     file on disk is empty at the moment because a rewrite has not
+                     been flushed yet
      pkg[b]          the directory <share>/xx/yy/zz-3 of build-id b:
-                     [vis, inst, users, ok, complete]; inst identifies the
+                     [vis, inst, users, ok, complete, mt]; inst identifies the
                      installation (who renamed it into place), users = pkg.json
                      "users" in file order, ok = content hash equals the recorded
-                     one, complete = pkg.json + workspace + audit present
+                     one, complete = pkg.json + workspace + audit present, mt = pkg.json
+                     on disk is empty at the moment (unflushed rewrite)
      order           ages: tokens (build-id = pkg.json of the visible package,
                      process = pkg.json in that installer's temporary directory),
                      least recently written/touched first  (st_mtime_ns of pkg.json)
@@ -42,9 +45,16 @@
      "RepoCreateWindow"     repo.json is created empty, then locked, then written
                             (share.py 201-203); readers json.load() it (182, 331)
                             [repaired: an empty file reads as {}, creator merges]
+     "UnlockBeforeFlush"    OpenLocked.__exit__ (share.py 55-59) releases the flock and
+                            only then closes the file: the JSON text written under the
+                            lock sits in the user-space buffer, the file on disk is
+                            empty (truncate() flushed) until close()  [repaired: flush
+                            before unlock]
      "InspectRace"          sameWorkspace: islink() then readlink() (share.py
                             116-117), a vanished link is a BuildError
-                            [repaired: a vanished link is "not the same workspace"]
+                            [repaired: a vanished link is "not the same workspace"];
+                            the same BuildError when the link of a user points to a
+                            package that has been collected (samefile, share.py 123)
 
    P layer: the invariants at the end.  dangling / polviol / err are history
    variables that record P-level events at the step where they happen.
@@ -68,18 +78,19 @@ VARIABLES sdir, repo, pkg, order, ninst,
           ws, claim,
           pc, op, loc,
           todo, total, nunlink, quota,
-          err, dangling, polviol, stable,
+          err, dangling, polviol, stable, stale,
           hist
 
 store  == <<sdir, repo, pkg, order, ninst>>
 locks  == <<repoLock, pkgLock>>
 ctl    == <<pc, op, loc>>
 budget == <<todo, total, nunlink, quota>>
-ghost  == <<err, dangling, polviol>>
+ghost2 == <<err, dangling, polviol, stale>>
+ghost  == <<err, dangling, polviol, stale, stable>>
 vars == <<sdir, repo, pkg, order, ninst, repoLock, pkgLock, ws, claim, pc, op, loc,
-          todo, total, nunlink, quota, err, dangling, polviol, stable, hist>>
+          todo, total, nunlink, quota, err, dangling, polviol, stable, stale, hist>>
 view == <<sdir, repo, pkg, order, ninst, repoLock, pkgLock, ws, claim, pc, op, loc,
-          todo, total, nunlink, quota, err, dangling, polviol, stable>>
+          todo, total, nunlink, quota, err, dangling, polviol, stable, stale>>
 
 NoQuota == 99
 Size(b) == IF b = "b1" THEN 1 ELSE 2
@@ -90,12 +101,15 @@ DIR == <<"dir">>
 LINK(b) == <<"link", b>>
 IsLink(w) == w[1] = "link"
 
-NoPkg == [vis |-> FALSE, inst |-> 0, users |-> <<>>, ok |-> TRUE, complete |-> TRUE]
+NoPkg == [vis |-> FALSE, inst |-> 0, users |-> <<>>, ok |-> TRUE, complete |-> TRUE, mt |-> FALSE]
+NoRepo == [st |-> "none", seq |-> <<>>, mt |-> FALSE]
 NoLock == [sh |-> {}, ex |-> {}]
 Free(l) == l.sh = {} /\ l.ex = {}
 IdleOp == [kind |-> "idle", b |-> "-", mv |-> FALSE, bad |-> FALSE, pu |-> FALSE, pn |-> FALSE]
 NoLoc == [sub |-> "", fail |-> "", how |-> "", scan |-> <<>>, cur |-> "-", us |-> <<>>,
-          cands |-> {}, size |-> 0, newpkg |-> "-", gpu |-> FALSE, gpn |-> FALSE, after |-> ""]
+          cands |-> {}, size |-> 0, newpkg |-> "-", gpu |-> FALSE, gpn |-> FALSE, after |-> "", dirty |-> FALSE,
+          \* history: claims / workspaces when this gc took the repo lock
+          sc |-> [q \in Procs |-> <<"none">>], sw |-> [q \in Procs |-> <<"none">>]]
 
 SeqToSet(s) == {s[i] : i \in DOMAIN s}
 InSeq(x, s) == \E i \in DOMAIN s : s[i] = x
@@ -112,7 +126,10 @@ W(x) == x \in Weak
 
 (* P-level notion of "used": a workspace link or a pending claim *)
 PUsed(b) == \E p \in Procs : ws[p] = LINK(b) \/ claim[p][1] = b
-PUsedNext(b) == \E p \in Procs : ws'[p] = LINK(b) \/ claim'[p][1] = b
+
+\* history variable stable[g]: packages that were unused (P-level) ever since gc g took the repo lock;
+\* Mark(b): b is taken into use (claim or link) now
+Mark(b) == stable' = [q \in Procs |-> stable[q] \ {b}]
 
 GcPcs == {"g_openpkg", "g_lockpkg", "g_islink", "g_readlink", "g_unlockpkg", "g_remove", "g_unlockrepo"}
 
@@ -123,22 +140,22 @@ Init ==
   /\ claim = [p \in Procs |-> NONE]
   /\ pc = [p \in Procs |-> "idle"] /\ op = [p \in Procs |-> IdleOp] /\ loc = [p \in Procs |-> NoLoc]
   /\ todo = [p \in Procs |-> MaxOps] /\ total = 0 /\ nunlink = 0
-  /\ err = {} /\ dangling = {} /\ polviol = {} /\ stable = [p \in Procs |-> {}]
+  /\ err = {} /\ dangling = {} /\ polviol = {} /\ stable = [p \in Procs |-> {}] /\ stale = {}
   /\ ninst = 2
   /\ \E k \in InitKinds :
-       \/ /\ k = "nodir" /\ sdir = FALSE /\ repo = [st |-> "none", seq |-> <<>>]
+       \/ /\ k = "nodir" /\ sdir = FALSE /\ repo = NoRepo
           /\ pkg = [b \in BIds |-> NoPkg] /\ order = <<>> /\ ws = [p \in Procs |-> NONE]
-          /\ hist = <<[a |-> "Init", p |-> "-", x |-> "nodir"]>>
-       \/ /\ k = "emptydir" /\ sdir = TRUE /\ repo = [st |-> "none", seq |-> <<>>]
+          /\ hist = <<[a |-> "Init", p |-> "-", x |-> "nodir", quota |-> quota]>>
+       \/ /\ k = "emptydir" /\ sdir = TRUE /\ repo = NoRepo
           /\ pkg = [b \in BIds |-> NoPkg] /\ order = <<>> /\ ws = [p \in Procs |-> NONE]
-          /\ hist = <<[a |-> "Init", p |-> "-", x |-> "emptydir"]>>
+          /\ hist = <<[a |-> "Init", p |-> "-", x |-> "emptydir", quota |-> quota]>>
        \/ /\ k = "pop" /\ sdir = TRUE
           /\ \E S \in SUBSET BIds :
               \E sq \in (IF InitPerm THEN Perms(S) ELSE {Canon(S)}), od \in (IF InitPerm THEN Perms(S) ELSE {Canon(S)}) :
                \E us \in [S -> UNION {(IF InitPerm THEN Perms(U) ELSE {Canon(U)}) : U \in SUBSET Procs}] :
-                 /\ repo = [st |-> "map", seq |-> sq] /\ order = od
+                 /\ repo = [st |-> "map", seq |-> sq, mt |-> FALSE] /\ order = od
                  /\ pkg = [b \in BIds |-> IF b \in S THEN [vis |-> TRUE, inst |-> Size(b), users |-> us[b],
-                                                          ok |-> TRUE, complete |-> TRUE] ELSE NoPkg]
+                                                          ok |-> TRUE, complete |-> TRUE, mt |-> FALSE] ELSE NoPkg]
                  /\ ws \in {w \in [Procs -> {NONE} \cup {LINK(b) : b \in S}] :
                               \A p \in Procs : IsLink(w[p]) => InSeq(p, us[w[p][2]])}
                  /\ hist = <<[a |-> "Init", p |-> "-", x |-> "pop",
@@ -189,7 +206,8 @@ Unlink(p) ==
   /\ total < MaxTotal /\ \E q \in Procs : todo[q] > 0
   /\ ws' = [ws EXCEPT ![p] = NONE] /\ nunlink' = nunlink + 1
   /\ H("Unlink", p, "")
-  /\ UNCHANGED <<store, locks, claim, ctl, todo, total, quota, ghost>>
+  /\ stale' = stale \ {p}
+  /\ UNCHANGED <<store, locks, claim, ctl, todo, total, quota, err, dangling, polviol, stable>>
 
 ----------------------------------------------------------------------------
 (* useSharedPackage, share.py 217-247  (also the registration sub-protocol of the repaired install) *)
@@ -240,12 +258,13 @@ U_LockPkg(p) ==
   /\ pc' = [pc EXCEPT ![p] = "u_isdir"] /\ H("U_LockPkg", p, "")
   /\ UNCHANGED <<store, repoLock, ws, claim, op, loc, budget, ghost>>
 
-\* 224 [path.isdir <pkg>]
+\* 224-229 [path.isdir <pkg>] then json.load (245: "Corrupt meta info")
 U_IsDir(p) ==
   /\ pc[p] = "u_isdir"
-  /\ IF pkg[op[p].b].vis
+  /\ IF pkg[op[p].b].vis /\ ~pkg[op[p].b].mt
        THEN pc' = [pc EXCEPT ![p] = "u_register"] /\ UNCHANGED loc
-       ELSE pc' = [pc EXCEPT ![p] = "u_unlockpkg"] /\ loc' = [loc EXCEPT ![p].fail = "none"]
+       ELSE /\ pc' = [pc EXCEPT ![p] = "u_unlockpkg"]
+            /\ loc' = [loc EXCEPT ![p].fail = IF pkg[op[p].b].vis THEN "json-use" ELSE "none"]
   /\ H("U_IsDir", p, "")
   /\ UNCHANGED <<store, locks, ws, claim, op, budget, ghost>>
 
@@ -253,13 +272,14 @@ U_IsDir(p) ==
 U_Register(p) ==
   LET b == op[p].b IN
   /\ pc[p] = "u_register"
-  /\ pkg' = [pkg EXCEPT ![b].users = IF InSeq(p, @) THEN @ ELSE Append(@, p)]
+  /\ pkg' = [pkg EXCEPT ![b].users = IF InSeq(p, @) THEN @ ELSE Append(@, p),
+                         ![b].mt = ~InSeq(p, pkg[b].users) /\ W("UnlockBeforeFlush")]
   /\ order' = Touch(order, b)
   /\ IF W("LinkAfterUnlock")
-       THEN pc' = [pc EXCEPT ![p] = "u_unlockpkg"] /\ UNCHANGED loc
+       THEN pc' = [pc EXCEPT ![p] = "u_unlockpkg"] /\ loc' = [loc EXCEPT ![p].dirty = ~InSeq(p, pkg[b].users)]
        ELSE \* repaired: the builder links before the locks are released
             /\ pc' = [pc EXCEPT ![p] = IF TailPc(p, b) = "b_same" THEN "u_unlockpkg" ELSE TailPc(p, b)]
-            /\ loc' = [loc EXCEPT ![p].after = "unlock"]
+            /\ loc' = [loc EXCEPT ![p].after = "unlock", ![p].dirty = ~InSeq(p, pkg[b].users)]
   /\ H("U_Register", p, "")
   /\ UNCHANGED <<sdir, repo, ninst, locks, ws, claim, op, budget, ghost>>
 
@@ -267,16 +287,29 @@ U_Register(p) ==
 U_UnlockPkg(p) ==
   /\ pc[p] = "u_unlockpkg"
   /\ pkgLock' = [pkgLock EXCEPT ![op[p].b].ex = {}]
-  /\ pc' = [pc EXCEPT ![p] = "u_unlockrepo"] /\ H("U_UnlockPkg", p, "")
-  /\ UNCHANGED <<store, repoLock, ws, claim, op, loc, budget, ghost>>
+  /\ pc' = [pc EXCEPT ![p] = "u_closepkg"] /\ H("U_UnlockPkg", p, "")
+  \* repaired: the rewritten text is flushed here (st_mtime changes once more)
+  /\ order' = IF loc[p].dirty /\ ~W("UnlockBeforeFlush") THEN Touch(order, op[p].b) ELSE order
+  /\ UNCHANGED <<sdir, repo, pkg, ninst, repoLock, ws, claim, op, loc, budget, ghost>>
+
+\* 59 [close pkg.json]: the buffered rewrite reaches the file
+U_ClosePkg(p) ==
+  /\ pc[p] = "u_closepkg"
+  /\ pkg' = IF loc[p].dirty THEN [pkg EXCEPT ![op[p].b].mt = FALSE] ELSE pkg
+  /\ order' = IF loc[p].dirty /\ W("UnlockBeforeFlush") /\ pkg[op[p].b].vis THEN Touch(order, op[p].b) ELSE order
+  /\ pc' = [pc EXCEPT ![p] = "u_unlockrepo"] /\ H("U_ClosePkg", p, "")
+  /\ UNCHANGED <<sdir, repo, ninst, locks, ws, claim, op, loc, budget, ghost>>
 
 \* 221 exit [flock.un repo.json]; the API returns
 U_UnlockRepo(p) ==
   LET b == op[p].b IN
   /\ pc[p] = "u_unlockrepo"
   /\ repoLock' = [repoLock EXCEPT !.sh = @ \ {p}]
-  /\ order' = IF loc[p].fail = "none" THEN order ELSE Remove(order, p)    \* repaired lost race: the temporary copy is dropped
-  /\ IF loc[p].fail = "none"
+  /\ order' = IF loc[p].fail # "" THEN order ELSE Remove(order, p)    \* repaired lost race: the temporary copy is dropped
+  /\ IF loc[p].fail = "json-use"
+       THEN Fail(p, "json-use") /\ UNCHANGED claim /\ H("U_UnlockRepo", p, "error")     \* BuildError: Corrupt meta info
+       ELSE UNCHANGED err /\
+       IF loc[p].fail = "none"
        THEN UseApiNone(p) /\ H("U_UnlockRepo", p, "none")
        ELSE IF ~W("LinkAfterUnlock")
        THEN Done(p) /\ UNCHANGED claim /\ H("U_UnlockRepo", p, "linked")
@@ -285,7 +318,8 @@ U_UnlockRepo(p) ==
        ELSE /\ claim' = [claim EXCEPT ![p] = <<b, IF op[p].kind = "use" THEN "use" ELSE "lost">>]
             /\ pc' = [pc EXCEPT ![p] = TailPc(p, b)] /\ loc' = [loc EXCEPT ![p] = NoLoc] /\ UNCHANGED op
             /\ H("U_UnlockRepo", p, "ok")
-  /\ UNCHANGED <<sdir, repo, pkg, ninst, pkgLock, ws, budget, ghost>>
+  /\ Mark(b)
+  /\ UNCHANGED <<sdir, repo, pkg, ninst, pkgLock, ws, budget, dangling, polviol, stale>>
 
 ----------------------------------------------------------------------------
 (* the builder's workspace bookkeeping, builder.py 1501-1526, 1535-1540, 1727-1741 *)
@@ -295,61 +329,71 @@ B_Prune(p) ==
   /\ pc[p] = "b_prune"
   /\ ws' = [ws EXCEPT ![p] = NONE]
   /\ pc' = [pc EXCEPT ![p] = "b_link"] /\ H("B_Prune", p, "")
-  /\ UNCHANGED <<store, locks, claim, op, loc, budget, ghost>>
+  /\ stale' = IF claim[p] = NONE THEN stale \ {p} ELSE stale
+  /\ UNCHANGED <<store, locks, claim, op, loc, budget, err, dangling, polviol, stable>>
 
 \* 1516 / 1735 [symlink <ws>]
 B_Link(p) ==
   /\ pc[p] = "b_link"
   /\ ws' = [ws EXCEPT ![p] = LINK(op[p].b)]
   /\ claim' = [claim EXCEPT ![p] = NONE]
-  /\ IF loc[p].after = "unlock"
-       THEN pc' = [pc EXCEPT ![p] = "u_unlockpkg"] /\ UNCHANGED <<op, loc>>
-       ELSE Done(p)
+  /\ LET nl == [g \in Procs |-> IF g # p /\ pc[g] \in GcPcs
+                                   THEN [loc[g] EXCEPT !.sw = [@ EXCEPT ![p] = <<"during", claim[p][IF claim[p] = NONE THEN 1 ELSE 2]>>]]
+                                   ELSE loc[g]] IN
+     IF loc[p].after = "unlock"
+       THEN pc' = [pc EXCEPT ![p] = "u_unlockpkg"] /\ UNCHANGED op /\ loc' = nl
+       ELSE /\ pc' = [pc EXCEPT ![p] = "idle"] /\ op' = [op EXCEPT ![p] = IdleOp]
+            /\ loc' = [nl EXCEPT ![p] = NoLoc]
+  \* the share API handed out the path of a package that is not there (any more) and nobody forced its removal
+  /\ dangling' = IF ~pkg[op[p].b].vis /\ p \notin stale THEN dangling \cup {"linked-to-collected"} ELSE dangling
+  /\ stale' = IF pkg[op[p].b].vis THEN stale \ {p} ELSE stale \cup {p}
   /\ H("B_Link", p, "")
-  /\ UNCHANGED <<store, locks, budget, ghost>>
+  /\ Mark(op[p].b)
+  /\ UNCHANGED <<store, locks, budget, err, polviol>>
 
 \* 1535-1540 [unlink <ws>]: the share does not have the package (any more)
 B_Unshare(p) ==
   /\ pc[p] = "b_unshare"
   /\ ws' = [ws EXCEPT ![p] = NONE]
   /\ Done(p) /\ H("B_Unshare", p, "")
-  /\ UNCHANGED <<store, locks, claim, budget, ghost>>
+  /\ stale' = stale \ {p}
+  /\ UNCHANGED <<store, locks, claim, budget, err, dangling, polviol, stable>>
 
 ----------------------------------------------------------------------------
 (* installSharedPackage, share.py 249-315 *)
 
 \* the API returns (path, True): builder.py 1727-1741
 InstReturn(p) ==
-  IF ~op[p].mv THEN Done(p) /\ UNCHANGED claim
+  IF ~op[p].mv THEN Done(p) /\ UNCHANGED <<claim, stable>>
   ELSE IF W("LinkAfterUnlock")
-  THEN /\ claim' = [claim EXCEPT ![p] = <<op[p].b, "inst">>]
+  THEN /\ claim' = [claim EXCEPT ![p] = <<op[p].b, "inst">>] /\ Mark(op[p].b)
        /\ pc' = [pc EXCEPT ![p] = IF ws[p] = NONE THEN "b_link" ELSE "b_prune"]
        /\ loc' = [loc EXCEPT ![p] = NoLoc] /\ UNCHANGED op
   ELSE /\ pc' = [pc EXCEPT ![p] = "u_open"]
-       /\ loc' = [loc EXCEPT ![p] = [NoLoc EXCEPT !.sub = "instlink"]] /\ UNCHANGED <<op, claim>>
+       /\ loc' = [loc EXCEPT ![p] = [NoLoc EXCEPT !.sub = "instlink"]] /\ UNCHANGED <<op, claim, stable>>
 
 \* the API returns (path, False): 253 / 300
 Lost(p, how) ==
-  IF ~op[p].mv THEN Done(p) /\ UNCHANGED claim       \* install-only project: nothing will be linked
+  IF ~op[p].mv THEN Done(p) /\ UNCHANGED <<claim, stable>>       \* install-only project: nothing will be linked
   ELSE IF W("LostRaceUnregistered")
-  THEN /\ claim' = [claim EXCEPT ![p] = <<op[p].b, "lost">>]
+  THEN /\ claim' = [claim EXCEPT ![p] = <<op[p].b, "lost">>] /\ Mark(op[p].b)
        /\ pc' = [pc EXCEPT ![p] = IF how = "quick" THEN "b_prune" ELSE "b_link"]
        /\ loc' = [loc EXCEPT ![p] = NoLoc] /\ UNCHANGED op
   ELSE /\ pc' = [pc EXCEPT ![p] = "r_touch"]
-       /\ loc' = [loc EXCEPT ![p] = [NoLoc EXCEPT !.sub = "lostreg", !.how = how]] /\ UNCHANGED <<op, claim>>
+       /\ loc' = [loc EXCEPT ![p] = [NoLoc EXCEPT !.sub = "lostreg", !.how = how]] /\ UNCHANGED <<op, claim, stable>>
 
 \* 252 [path.isdir <pkg>]
 I_Quick(p) ==
   /\ pc[p] = "i_quick"
   /\ IF pkg[op[p].b].vis
        THEN Lost(p, "quick") /\ H("I_Quick", p, "lost")
-       ELSE pc' = [pc EXCEPT ![p] = "i_mkdirs"] /\ UNCHANGED <<op, loc, claim>> /\ H("I_Quick", p, "")
-  /\ UNCHANGED <<store, locks, ws, budget, ghost>>
+       ELSE pc' = [pc EXCEPT ![p] = "i_mkdirs"] /\ UNCHANGED <<op, loc, claim, stable>> /\ H("I_Quick", p, "")
+  /\ UNCHANGED <<store, locks, ws, budget, ghost2>>
 
 \* repaired lost race: make sure repo.json exists so that the registration can take the repo lock [open.a repo.json]
 R_Touch(p) ==
   /\ pc[p] = "r_touch"
-  /\ repo' = IF repo.st = "none" THEN [st |-> "empty", seq |-> <<>>] ELSE repo
+  /\ repo' = IF repo.st = "none" THEN [NoRepo EXCEPT !.st = "empty"] ELSE repo
   /\ pc' = [pc EXCEPT ![p] = "u_open"] /\ H("R_Touch", p, "")
   /\ UNCHANGED <<sdir, pkg, order, ninst, locks, ws, claim, op, loc, budget, ghost>>
 
@@ -384,12 +428,12 @@ I_Rename(p) ==
        THEN /\ IF W("LostRaceUnregistered") \/ ~op[p].mv THEN order' = Remove(order, p) ELSE UNCHANGED order
             /\ Lost(p, "rename") /\ H("I_Rename", p, "lost")
             /\ UNCHANGED <<pkg, ninst>>
-       ELSE /\ pkg' = [pkg EXCEPT ![b] = [vis |-> TRUE, inst |-> ninst + 1, users |-> <<p>>, ok |-> TRUE, complete |-> TRUE]]
+       ELSE /\ pkg' = [pkg EXCEPT ![b] = [vis |-> TRUE, inst |-> ninst + 1, users |-> <<p>>, ok |-> TRUE, complete |-> TRUE, mt |-> FALSE]]
             /\ ninst' = ninst + 1
             /\ order' = Replace(order, p, b)
-            /\ pc' = [pc EXCEPT ![p] = "a_open"] /\ UNCHANGED <<op, loc, claim>>
+            /\ pc' = [pc EXCEPT ![p] = "a_open"] /\ UNCHANGED <<op, loc, claim, stable>>
             /\ H("I_Rename", p, "")
-  /\ UNCHANGED <<sdir, repo, locks, ws, budget, ghost>>
+  /\ UNCHANGED <<sdir, repo, locks, ws, budget, ghost2>>
 
 (* __addPackage, share.py 180-209 *)
 
@@ -404,7 +448,7 @@ A_Open(p) ==
 A_Create(p) ==
   /\ pc[p] = "a_create"
   /\ IF repo.st = "none"
-       THEN repo' = [st |-> "empty", seq |-> <<>>] /\ pc' = [pc EXCEPT ![p] = "a_lockc"]
+       THEN repo' = [NoRepo EXCEPT !.st = "empty"] /\ pc' = [pc EXCEPT ![p] = "a_lockc"]
        ELSE UNCHANGED repo /\ pc' = [pc EXCEPT ![p] = "a_open2"]
   /\ H("A_Create", p, "")
   /\ UNCHANGED <<sdir, pkg, order, ninst, locks, ws, claim, op, loc, budget, ghost>>
@@ -422,8 +466,8 @@ A_LockC(p) ==
               ELSE IF InSeq(b, repo.seq) THEN repo.seq ELSE Append(repo.seq, b) IN
   /\ pc[p] = "a_lockc" /\ Free(repoLock)
   /\ repoLock' = [repoLock EXCEPT !.ex = {p}]
-  /\ repo' = [st |-> "map", seq |-> nseq]
-  /\ loc' = [loc EXCEPT ![p].size = SumSet(SeqToSet(nseq))]
+  /\ repo' = [st |-> "map", seq |-> nseq, mt |-> W("UnlockBeforeFlush")]
+  /\ loc' = [loc EXCEPT ![p].size = SumSet(SeqToSet(nseq)), ![p].dirty = TRUE]
   /\ pc' = [pc EXCEPT ![p] = "a_unlock"] /\ H("A_LockC", p, "")
   /\ UNCHANGED <<sdir, pkg, order, ninst, pkgLock, ws, claim, op, budget, ghost>>
 
@@ -433,52 +477,61 @@ A_Lock(p) ==
       nseq == IF repo.st # "map" THEN <<b>> ELSE IF InSeq(b, repo.seq) THEN repo.seq ELSE Append(repo.seq, b) IN
   /\ pc[p] = "a_lock" /\ Free(repoLock)
   /\ repoLock' = [repoLock EXCEPT !.ex = {p}]
-  /\ IF repo.st = "empty" /\ W("RepoCreateWindow")
+  /\ IF (repo.st = "empty" /\ W("RepoCreateWindow")) \/ repo.mt
        THEN UNCHANGED repo /\ loc' = [loc EXCEPT ![p].fail = "json-install"]     \* JSONDecodeError
-       ELSE repo' = [st |-> "map", seq |-> nseq] /\ loc' = [loc EXCEPT ![p].size = SumSet(SeqToSet(nseq))]
+       ELSE /\ repo' = [st |-> "map", seq |-> nseq, mt |-> W("UnlockBeforeFlush")]
+            /\ loc' = [loc EXCEPT ![p].size = SumSet(SeqToSet(nseq)), ![p].dirty = TRUE]
   /\ pc' = [pc EXCEPT ![p] = "a_unlock"] /\ H("A_Lock", p, "")
   /\ UNCHANGED <<sdir, pkg, order, ninst, pkgLock, ws, claim, op, budget, ghost>>
 
-\* exit of OpenLocked [flock.un repo.json]; 308-315: quota check, automatic gc, return
+\* exit of OpenLocked, 57 [flock.un repo.json]
 A_Unlock(p) ==
   /\ pc[p] = "a_unlock"
   /\ repoLock' = [repoLock EXCEPT !.ex = {}]
+  /\ pc' = [pc EXCEPT ![p] = "a_close"] /\ H("A_Unlock", p, "")
+  /\ UNCHANGED <<store, pkgLock, ws, claim, op, loc, budget, ghost>>
+
+\* 59 [close repo.json]: the buffered rewrite reaches the file; 308-315: quota check, automatic gc, return
+A_Close(p) ==
+  /\ pc[p] = "a_close"
+  /\ repo' = IF loc[p].dirty THEN [repo EXCEPT !.mt = FALSE] ELSE repo
   /\ IF loc[p].fail # ""
-       THEN Fail(p, loc[p].fail) /\ UNCHANGED <<claim, dangling, polviol>> /\ H("A_Unlock", p, "error")
-       ELSE /\ UNCHANGED ghost
+       THEN Fail(p, loc[p].fail) /\ UNCHANGED <<claim, dangling, polviol, stale, stable>> /\ H("A_Close", p, "error")
+       ELSE /\ UNCHANGED ghost2
             /\ IF quota # NoQuota /\ loc[p].size > quota
                  THEN /\ pc' = [pc EXCEPT ![p] = "g_isdir"]
                       /\ loc' = [loc EXCEPT ![p] = [NoLoc EXCEPT !.sub = "auto", !.newpkg = op[p].b]]
-                      /\ UNCHANGED <<op, claim>> /\ H("A_Unlock", p, "autoclean")
-                 ELSE InstReturn(p) /\ H("A_Unlock", p, "ok")
-  /\ UNCHANGED <<store, pkgLock, ws, budget>>
+                      /\ UNCHANGED <<op, claim, stable>> /\ H("A_Close", p, "autoclean")
+                 ELSE InstReturn(p) /\ H("A_Close", p, "ok")
+  /\ UNCHANGED <<sdir, pkg, order, ninst, locks, ws, budget>>
 
 ----------------------------------------------------------------------------
 (* gc, share.py 317-361  (stand-alone or as the automatic gc of an install, 310) *)
 
 GcReturn(p, x) ==
   IF loc[p].fail # ""
-    THEN Fail(p, loc[p].fail) /\ UNCHANGED claim /\ H(x, p, "error")
+    THEN Fail(p, loc[p].fail) /\ UNCHANGED <<claim, stable>> /\ H(x, p, "error")
     ELSE /\ UNCHANGED err
-         /\ IF loc[p].sub = "auto" THEN InstReturn(p) ELSE Done(p) /\ UNCHANGED claim
+         /\ IF loc[p].sub = "auto" THEN InstReturn(p) ELSE Done(p) /\ UNCHANGED <<claim, stable>>
          /\ H(x, p, "ok")
 
-\* 320 [path.isdir <share>] (+ mkdtemp of the attic)
+\* 320 [path.isdir <share>] (+ mkdtemp of the attic)   (repaired: [path.isfile repo.json])
 G_IsDir(p) ==
   /\ pc[p] = "g_isdir"
-  /\ IF sdir THEN pc' = [pc EXCEPT ![p] = "g_openrepo"] /\ UNCHANGED <<op, loc, claim, err>> /\ H("G_IsDir", p, "")
+  /\ IF (IF W("GcNeedsRepoJson") THEN sdir ELSE repo.st # "none")
+       THEN pc' = [pc EXCEPT ![p] = "g_openrepo"] /\ UNCHANGED <<op, loc, claim, err, stable>> /\ H("G_IsDir", p, "")
              ELSE GcReturn(p, "G_IsDir")
-  /\ UNCHANGED <<store, locks, ws, budget, dangling, polviol>>
+  /\ UNCHANGED <<store, locks, ws, budget, dangling, polviol, stale>>
 
 \* 330 [open.r+ repo.json]
 G_OpenRepo(p) ==
   /\ pc[p] = "g_openrepo"
   /\ IF repo.st = "none"
        THEN IF W("GcNeedsRepoJson")
-              THEN Fail(p, "gc-norepo") /\ UNCHANGED claim /\ H("G_OpenRepo", p, "error")    \* raw FileNotFoundError
+              THEN Fail(p, "gc-norepo") /\ UNCHANGED <<claim, stable>> /\ H("G_OpenRepo", p, "error")    \* raw FileNotFoundError
               ELSE GcReturn(p, "G_OpenRepo")
-       ELSE pc' = [pc EXCEPT ![p] = "g_lockrepo"] /\ UNCHANGED <<op, loc, claim, err>> /\ H("G_OpenRepo", p, "")
-  /\ UNCHANGED <<store, locks, ws, budget, dangling, polviol>>
+       ELSE pc' = [pc EXCEPT ![p] = "g_lockrepo"] /\ UNCHANGED <<op, loc, claim, err, stable>> /\ H("G_OpenRepo", p, "")
+  /\ UNCHANGED <<store, locks, ws, budget, dangling, polviol, stale>>
 
 \* candidate order of sorted(candidates), 348: used ones first, then by age
 Key(c) == (IF c.unused THEN 100 ELSE 0) + Index(order, c.b)
@@ -492,15 +545,16 @@ ScanPc(scan, cs, size, pn) == IF scan # <<>> THEN "g_openpkg" ELSE LoopPc(cs, si
 G_LockRepo(p) ==
   /\ pc[p] = "g_lockrepo" /\ Free(repoLock)
   /\ repoLock' = [repoLock EXCEPT !.ex = {p}]
-  /\ IF repo.st = "empty" /\ W("RepoCreateWindow")
+  /\ IF (repo.st = "empty" /\ W("RepoCreateWindow")) \/ repo.mt
        THEN /\ loc' = [loc EXCEPT ![p].fail = "json-gc"]                \* JSONDecodeError
-            /\ pc' = [pc EXCEPT ![p] = "g_unlockrepo"]
+            /\ pc' = [pc EXCEPT ![p] = "g_unlockrepo"] /\ UNCHANGED stable
        ELSE LET sq == IF repo.st = "map" THEN repo.seq ELSE <<>>
                 sz == SumSet(SeqToSet(sq)) IN
-            /\ loc' = [loc EXCEPT ![p].scan = sq, ![p].size = sz, ![p].cands = {}]
+            /\ loc' = [loc EXCEPT ![p].scan = sq, ![p].size = sz, ![p].cands = {}, ![p].sc = claim, ![p].sw = ws]
             /\ pc' = [pc EXCEPT ![p] = ScanPc(sq, {}, sz, loc[p].gpn)]
+            /\ stable' = [stable EXCEPT ![p] = {b \in BIds : ~PUsed(b)}]
   /\ H("G_LockRepo", p, "")
-  /\ UNCHANGED <<store, pkgLock, ws, claim, op, budget, ghost>>
+  /\ UNCHANGED <<store, pkgLock, ws, claim, op, budget, ghost2>>
 
 \* 338 [open.r pkg.json]  FileNotFoundError -> 344
 G_OpenPkg(p) ==
@@ -519,8 +573,10 @@ G_LockPkg(p) ==
   LET b == loc[p].cur IN
   /\ pc[p] = "g_lockpkg" /\ pkgLock[b].ex = {}
   /\ pkgLock' = [pkgLock EXCEPT ![b].sh = @ \cup {p}]
-  /\ loc' = [loc EXCEPT ![p].us = pkg[b].users]
-  /\ pc' = [pc EXCEPT ![p] = IF pkg[b].users = <<>> THEN "g_unlockpkg" ELSE "g_islink"]
+  /\ IF pkg[b].mt
+       THEN /\ loc' = [loc EXCEPT ![p].fail = "json-gcpkg"] /\ pc' = [pc EXCEPT ![p] = "g_unlockpkg"]
+       ELSE /\ loc' = [loc EXCEPT ![p].us = pkg[b].users]
+            /\ pc' = [pc EXCEPT ![p] = IF pkg[b].users = <<>> THEN "g_unlockpkg" ELSE "g_islink"]
   /\ H("G_LockPkg", p, b)
   /\ UNCHANGED <<store, repoLock, ws, claim, op, budget, ghost>>
 
@@ -551,6 +607,10 @@ G_ReadLink(p) ==
   /\ IF ~IsLink(ws[u]) /\ W("InspectRace")
        THEN /\ loc' = [loc EXCEPT ![p].fail = "gc-inspect"]           \* BuildError("Error inspecting workspace")
             /\ pc' = [pc EXCEPT ![p] = "g_unlockpkg"]
+       ELSE IF IsLink(ws[u]) /\ ~pkg[ws[u][2]].vis /\ W("InspectRace")
+       THEN \* 123: samefile() of a link whose package was collected (forced gc, or one of the races) -> same BuildError
+            /\ loc' = [loc EXCEPT ![p].fail = "gc-inspect-dangling"]
+            /\ pc' = [pc EXCEPT ![p] = "g_unlockpkg"]
        ELSE IF ws[u] = LINK(b)
        THEN /\ loc' = [loc EXCEPT ![p].us = <<>>, ![p].cands = Verdict(p, FALSE)]
             /\ pc' = [pc EXCEPT ![p] = "g_unlockpkg"]
@@ -579,33 +639,49 @@ G_Remove(p) ==
       b == c.b
       cs == loc[p].cands \ {c}
       sz == loc[p].size - Size(b)
-      victims == {q \in Procs : ws[q] = LINK(b) \/ claim[q][1] = b}
-      how(q) == IF claim[q][1] = b THEN claim[q][2]
-                ELSE IF InSeq(q, pkg[b].users) THEN "linked" ELSE "linked-unregistered"
+      \* (a link that a forced gc has broken before does not count, even if the package has been installed again)
+      victims == {q \in Procs \ stale : ws[q] = LINK(b) \/ claim[q][1] = b}
+      \* what the victim was doing when this gc took the repo lock
+      \* (the installer's claim may begin just after the lock was taken: its API call ends with unlocked steps)
+      how(q) == IF claim[q][1] = b
+                  THEN (IF loc[p].sc[q] = claim[q] \/ claim[q][2] = "inst" THEN claim[q][2] ELSE "during")
+                ELSE IF loc[p].sw[q] = LINK(b) THEN (IF InSeq(q, pkg[b].users) THEN "linked" ELSE "linked-unregistered")
+                ELSE IF loc[p].sc[q][1] = b THEN loc[p].sc[q][2]
+                ELSE IF loc[p].sw[q] = <<"during", "inst">> THEN "inst"
+                ELSE "during"
       older == {d \in stable[p] : d # b /\ d # loc[p].newpkg /\ pkg[d].vis /\ InSeq(d, repo.seq)
                                    /\ Index(order, d) < Index(order, b)} IN
   /\ pc[p] = "g_remove"
   /\ pkg' = [pkg EXCEPT ![b] = NoPkg]
   /\ order' = Remove(order, b)
-  /\ repo' = [repo EXCEPT !.seq = Remove(@, b)]
-  /\ loc' = [loc EXCEPT ![p].cands = cs, ![p].size = sz]
+  /\ repo' = [repo EXCEPT !.seq = Remove(@, b), !.mt = W("UnlockBeforeFlush")]
+  /\ loc' = [loc EXCEPT ![p].cands = cs, ![p].size = sz, ![p].dirty = TRUE]
   /\ pc' = [pc EXCEPT ![p] = LoopPc(cs, sz, loc[p].gpn)]
   /\ dangling' = IF loc[p].gpu THEN dangling ELSE dangling \cup {how(q) : q \in victims}
+  /\ stale' = IF loc[p].gpu THEN stale \cup {q \in Procs : ws[q] = LINK(b) \/ claim[q][1] = b} ELSE stale
   /\ polviol' = polviol
         \cup (IF ~loc[p].gpu /\ ~loc[p].gpn /\ loc[p].size <= quota THEN {"below-quota"} ELSE {})
         \cup (IF ~loc[p].gpu /\ older # {} THEN {"not-oldest"} ELSE {})
   /\ H("G_Remove", p, b)
-  /\ UNCHANGED <<sdir, ninst, locks, ws, claim, op, budget, err>>
+  /\ UNCHANGED <<sdir, ninst, locks, ws, claim, op, budget, err, stable>>
 
-\* 330 exit [flock.un repo.json] (+ removal of the attic); gc returns
+\* 330 exit, 57 [flock.un repo.json]
 G_UnlockRepo(p) ==
   LET left == {d \in stable[p] : d # loc[p].newpkg /\ pkg[d].vis /\ InSeq(d, repo.seq)} IN
   /\ pc[p] = "g_unlockrepo"
   /\ repoLock' = [repoLock EXCEPT !.ex = {}]
   /\ polviol' = IF loc[p].fail = "" /\ ~loc[p].gpu /\ left # {} /\ (loc[p].gpn \/ loc[p].size > quota)
                   THEN polviol \cup {"unused-left"} ELSE polviol
-  /\ GcReturn(p, "G_UnlockRepo")
-  /\ UNCHANGED <<store, pkgLock, ws, budget, dangling>>
+  /\ pc' = [pc EXCEPT ![p] = "g_close"] /\ H("G_UnlockRepo", p, "")
+  /\ stable' = [stable EXCEPT ![p] = {}]
+  /\ UNCHANGED <<store, pkgLock, ws, claim, op, loc, budget, err, dangling, stale>>
+
+\* 59 [close repo.json] (+ removal of the attic); gc returns
+G_Close(p) ==
+  /\ pc[p] = "g_close"
+  /\ repo' = IF loc[p].dirty THEN [repo EXCEPT !.mt = FALSE] ELSE repo
+  /\ GcReturn(p, "G_Close")
+  /\ UNCHANGED <<sdir, pkg, order, ninst, locks, ws, budget, dangling, polviol, stale>>
 
 ----------------------------------------------------------------------------
 Step(p) ==
@@ -614,23 +690,14 @@ Step(p) ==
   \/ \E pu, pn \in BOOLEAN : StartGc(p, pu, pn)
   \/ Unlink(p)
   \/ U_OpenRepo(p) \/ U_LockRepo(p) \/ U_OpenPkg(p) \/ U_LockPkg(p) \/ U_IsDir(p) \/ U_Register(p)
-  \/ U_UnlockPkg(p) \/ U_UnlockRepo(p)
+  \/ U_UnlockPkg(p) \/ U_ClosePkg(p) \/ U_UnlockRepo(p)
   \/ B_Prune(p) \/ B_Link(p) \/ B_Unshare(p)
   \/ I_Quick(p) \/ R_Touch(p) \/ I_MkDirs(p) \/ I_Prepare(p) \/ I_Meta(p) \/ I_Rename(p)
-  \/ A_Open(p) \/ A_Create(p) \/ A_Open2(p) \/ A_LockC(p) \/ A_Lock(p) \/ A_Unlock(p)
+  \/ A_Open(p) \/ A_Create(p) \/ A_Open2(p) \/ A_LockC(p) \/ A_Lock(p) \/ A_Unlock(p) \/ A_Close(p)
   \/ G_IsDir(p) \/ G_OpenRepo(p) \/ G_LockRepo(p) \/ G_OpenPkg(p) \/ G_LockPkg(p) \/ G_IsLink(p)
-  \/ G_ReadLink(p) \/ G_UnlockPkg(p) \/ G_Remove(p) \/ G_UnlockRepo(p)
+  \/ G_ReadLink(p) \/ G_UnlockPkg(p) \/ G_Remove(p) \/ G_UnlockRepo(p) \/ G_Close(p)
 
-\* history variable: packages that were unused (P-level) ever since gc p took the repo lock
-InSection(q) == pc[q] \in GcPcs
-InSectionNext(q) == pc'[q] \in GcPcs
-StableUpd ==
-  stable' = [q \in Procs |->
-               IF InSectionNext(q)
-                 THEN (IF InSection(q) THEN stable[q] ELSE BIds) \cap {b \in BIds : ~PUsedNext(b)}
-                 ELSE {}]
-
-Next == (\E p \in Procs : Step(p)) /\ StableUpd
+Next == \E p \in Procs : Step(p)
 
 Spec == Init /\ [][Next]_vars
 
@@ -661,17 +728,21 @@ NoDanglingInst == "inst" \notin dangling                     \* install returned
 NoDanglingLost == "lost" \notin dangling                     \* install returned (lost race), gc collected, builder links
 NoDanglingLinked == "linked" \notin dangling                 \* registered and linked
 NoDanglingUnregistered == "linked-unregistered" \notin dangling  \* linked after a lost install race, never registered
+NoDanglingLinkToCollected == "linked-to-collected" \notin dangling   \* the API returned the path of a package already collected
+NoDanglingDuring == "during" \notin dangling                 \* a use/install got through while gc held the repo lock
 \* end-to-end form: no workspace link without a package behind it (forced gc excepted: checked only without gcU/gcUA)
 NoDanglingLink == \A p \in Procs : IsLink(ws[p]) => pkg[ws[p][2]].vis
 \* no install, use or clean operation fails because of concurrency or an empty store
 NoSpuriousFailure == err = {}
 NoGcFailEmptyStore == "gc-norepo" \notin err
-NoJsonFailure == "json-gc" \notin err /\ "json-install" \notin err
+NoJsonFailure == err \cap {"json-gc", "json-install", "json-use", "json-gcpkg"} = {}
+NoJsonFailureUse == "json-use" \notin err /\ "json-gcpkg" \notin err
 NoJsonFailureGc == "json-gc" \notin err
 NoJsonFailureInstall == "json-install" \notin err
-NoInspectFailure == "gc-inspect" \notin err
+NoInspectFailure == "gc-inspect" \notin err /\ "gc-inspect-dangling" \notin err
 \* after any operation the recorded repository size equals the sum of the installed packages
-SizeAccounting == Quiescent => (IF repo.st = "map" THEN SeqToSet(repo.seq) = Visible ELSE Visible = {})
+\* (an operation that failed half way is reported by NoSpuriousFailure; its leftovers are not judged again here)
+SizeAccounting == (Quiescent /\ err = {}) => (IF repo.st = "map" THEN SeqToSet(repo.seq) = Visible ELSE Visible = {})
 \* automatic cleaning only removes unused packages (NotCollectedWhileUsed), oldest first, until the quota is met
 AutoCleanPolicy == polviol = {}
 \* lock discipline
@@ -685,6 +756,7 @@ Blocked(p) == \/ pc[p] = "u_lockrepo" /\ repoLock.ex # {}
 NoLockDeadlock == (\E p \in Procs : pc[p] # "idle") => \E p \in Procs : pc[p] # "idle" /\ ~Blocked(p)
 
 ASSUME "LostRaceUnregistered" \notin Weak => "RepoCreateWindow" \notin Weak
+ASSUME "RepoCreateWindow" \notin Weak => "UnlockBeforeFlush" \notin Weak
 
 \* counterexample printing variants for the Weak configs (the behaviour is replayed against the code)
 Cex(name, inv) == inv \/ ~PrintT(<<"@@", ToJson([cex |-> name, hist |-> hist])>>)
@@ -692,9 +764,11 @@ CexNoDanglingUse == Cex("NoDanglingUse", NoDanglingUse)
 CexNoDanglingInst == Cex("NoDanglingInst", NoDanglingInst)
 CexNoDanglingLost == Cex("NoDanglingLost", NoDanglingLost)
 CexNoDanglingUnregistered == Cex("NoDanglingUnregistered", NoDanglingUnregistered)
+CexNoDanglingLinkToCollected == Cex("NoDanglingLinkToCollected", NoDanglingLinkToCollected)
 CexNoGcFailEmptyStore == Cex("NoGcFailEmptyStore", NoGcFailEmptyStore)
 CexNoJsonFailureGc == Cex("NoJsonFailureGc", NoJsonFailureGc)
 CexNoJsonFailureInstall == Cex("NoJsonFailureInstall", NoJsonFailureInstall)
+CexNoJsonFailureUse == Cex("NoJsonFailureUse", NoJsonFailureUse)
 CexNoInspectFailure == Cex("NoInspectFailure", NoInspectFailure)
 
 \* vacuity companions (negated reachability; each must be VIOLATED)
@@ -703,7 +777,7 @@ ReachCreateRace == \A p \in Procs : pc[p] # "a_open2"
 ReachAutoRemove == \A p \in Procs : ~(pc[p] = "g_remove" /\ loc[p].sub = "auto")
 ReachUsedKept == \A p \in Procs : ~(pc[p] = "g_unlockrepo" /\ loc[p].fail = "" /\ ~loc[p].gpu /\ loc[p].size > quota
                                     /\ quota # NoQuota /\ Visible # {})
-ReachBothCollected == ~(Quiescent /\ repo.st = "map" /\ repo.seq = <<>> /\ Cardinality({p \in Procs : todo[p] < MaxOps}) >= 2)
+ReachTwoCandidates == \A p \in Procs : ~(pc[p] = "g_remove" /\ Cardinality(loc[p].cands) >= 2 /\ ~loc[p].gpu)
 ReachUseBlockedByGc == \A p \in Procs : ~(pc[p] = "u_lockrepo" /\ repoLock.ex # {})
 
 ----------------------------------------------------------------------------
